@@ -127,6 +127,12 @@ func (r *recorder) release(g int64) {
 // hlock is the harness's own access to the log; it gives up (false) when a hook left the mutex held for
 // seconds — only possible if the hooks of the code under test no longer come in the expected order.
 func (r *recorder) hlock() bool {
+	for i := 0; i < 5000; i++ {
+		if r.mu.TryLock() {
+			return true
+		}
+		runtime.Gosched()
+	}
 	for i := 0; i < 30000; i++ {
 		if r.mu.TryLock() {
 			return true
@@ -283,7 +289,9 @@ func boot() error {
 	bootOnce.Do(func() {
 		modules.SetStdErrReporting(false)
 		log.SetAdapter(log.AdapterFunc(func(log.Message, uint64) {}))
-		log.SetLogLevel(log.CriticalLevel)
+		// warnings stay enabled (failed Start* tasks log one): the log writer then asks the scheduler for its
+		// write trigger, which exercises the scheduler's "other" select branch; the adapter discards the lines
+		log.SetLogLevel(log.WarningLevel)
 		for _, n := range modNames {
 			mods = append(mods, modules.Register(n, nil, nil, nil))
 		}
@@ -1143,12 +1151,13 @@ func floodScenario(r *hxlib.Run) *scenario {
 	// wait-timeouts leave stale requests behind until the queue is full, then enqueue-timeouts count themselves
 	rng := r.Rng
 	qcap := modules.VerifMicroTaskQueueCap()
-	sc := &scenario{Class: "flood", Lim: 2, Seed: rng.Int63(), Force: forcing{Prob: map[string]int{}, MaxUs: 100}}
+	// the scheduler loop is slowed down so that the submitters outpace it and the queue really fills up
+	sc := &scenario{Class: "flood", Lim: 2, Seed: rng.Int63(), Force: forcing{Prob: map[string]int{"sched-loop": 100}, MaxUs: 1500}}
 	for i := 0; i < 2; i++ {
 		sc.Tasks = append(sc.Tasks, taskSpec{Prio: 0, Var: 0, Mod: i, RunUs: 60000, DelayMs: -1})
 		sc.Subs = append(sc.Subs, []int{i})
 	}
-	n := qcap + 40 + rng.Intn(40)
+	n := qcap + 150 + rng.Intn(100)
 	var sub []int
 	for i := 0; i < n; i++ {
 		sc.Tasks = append(sc.Tasks, taskSpec{Prio: 0, Var: 1, Mod: rng.Intn(3), RunUs: rng.Intn(50), DelayMs: 2, Out: []int{0, 1}[rng.Intn(2)]})
@@ -1312,6 +1321,11 @@ func gen(r *hxlib.Run, emit func(hxlib.Case)) {
 		extra["counter_below_zero_observed"] = toInt(extra["counter_below_zero_observed"]) + rec.dips
 		extra["forced_delays"] = toInt(extra["forced_delays"]) + rec.forcedHits
 		extraMu.Unlock()
+	}
+	if os.Getenv("HX_C15_ONLY") == "flood" { // debugging aid
+		sc := floodScenario(r)
+		emitScn(sc)
+		return
 	}
 	// regression scenarios first
 	emitScn(&scenario{Class: "default", Lim: 2, Seed: 1, Force: forcing{Prob: map[string]int{}, MaxUs: 100},
